@@ -322,4 +322,93 @@ Proof.
     destruct (Votes.get_node_in _ _ _ G) as [Hm _]. rewrite (install_resume_ns m (ns_nodes w HNS m Hm)). apply NC_same. reflexivity.
 Qed.
 
+(* ---------------- every step, responses ---------------- *)
+(* a response on a record of the new world is an old response, or was produced in this step by the handler
+   of the destination node, which is not frozen before nor after *)
+Definition RSk (w w' : world) (k' : call) (p : response) : Prop :=
+  (exists k, In k (w_calls w) /\ call_key k' = call_key k /\ c_resp k = Some p) \/
+  (exists k n, In k (w_calls w) /\ call_key k' = call_key k /\ c_resp k = None /\
+               In n (w_nodes w) /\ n_id n = c_dst k /\ n_frozen n = false /\
+               snd (fst (run_handler (w_now w) n (c_req k))) = Some p /\
+               n_frozen (fst (fst (run_handler (w_now w) n (c_req k)))) = false /\
+               In (fst (fst (run_handler (w_now w) n (c_req k)))) (w_nodes w')).
+Definition RS (w w' : world) : Prop := forall k' p, In k' (w_calls w') -> c_resp k' = Some p -> RSk w w' k' p.
+
+Lemma RS_old w w' :
+  (forall k', In k' (w_calls w') -> exists k, In k (w_calls w) /\ call_key k' = call_key k /\ c_resp k' = c_resp k) -> RS w w'.
+Proof. intros H k' p Hk' Ep. destruct (H k' Hk') as (k & A & B & D). left. exists k. rewrite <- D. auto. Qed.
+
+Lemma RS_same w w' : w_calls w' = w_calls w -> RS w w'.
+Proof. intros E. apply RS_old. intros k' Hk'. rewrite E in Hk'. exists k'. auto. Qed.
+
+Lemma old_set_call w1 w c c0 : w_calls w1 = w_calls w -> In c (w_calls w) -> call_key c0 = call_key c -> c_resp c0 = c_resp c ->
+  forall k', In k' (w_calls (set_call w1 c0)) -> exists k, In k (w_calls w) /\ call_key k' = call_key k /\ c_resp k' = c_resp k.
+Proof.
+  intros E Hc Ek Er k' Hk'. change (w_calls (set_call w1 c0)) with (upd_call c0 (w_calls w1)) in Hk'. rewrite E in Hk'.
+  apply in_upd_call in Hk'. destruct Hk' as [H|[-> _]]; [exists k'; auto|exists c; auto].
+Qed.
+
+Lemma RS_step_deliver w c dup : VInv w -> In c (w_calls w) -> (dup = false -> c_state c = CPending) -> RS w (step_deliver w c dup).
+Proof.
+  intros HV Hc Hst. unfold step_deliver. destruct (get_node w (c_dst c)) as [n|] eqn:G.
+  2:{ destruct dup; [apply RS_same; reflexivity|apply RS_old, old_set_call with (c := c); auto]. }
+  destruct (Votes.get_node_in _ _ _ G) as [Hn Eid].
+  destruct (n_frozen n) eqn:F; [destruct dup; [apply RS_same; reflexivity|apply RS_old, old_set_call with (c := c); auto]|].
+  destruct (run_handler (w_now w) n (c_req c)) as [[n1 resp] parked] eqn:ER.
+  destruct dup; [apply RS_same; reflexivity|]. specialize (Hst eq_refl).
+  destruct (n_frozen n1) eqn:F1; [apply RS_old, old_set_call with (c := c); auto|].
+  destruct resp as [p0|]; [|apply RS_old, old_set_call with (c := c); auto].
+  intros k' p Hk' Ep.
+  match type of Hk' with In k' (w_calls (set_call _ ?c')) => change (In k' (upd_call c' (w_calls w))) in Hk' end.
+  apply in_upd_call in Hk'. destruct Hk' as [H|[-> _]]; [left; exists k'; auto|].
+  cbn in Ep. injection Ep as <-. right. exists c, n. rewrite ER. cbn [fst snd].
+  repeat split; auto; [apply (vi_pend w HV c Hc Hst)|].
+  match goal with |- In n1 (w_nodes (set_call ?w1 _)) => change (In n1 (w_nodes w1)) end.
+  apply in_set_node_self with (m := n); [exact Hn|].
+  pose proof (R_run_handler (w_now w) n (c_req c) (vi_coh w HV n Hn)) as HR. rewrite ER in HR. cbn [fst] in HR. apply (Votes.r_id _ _ HR).
+Qed.
+
+Lemma RS_step_reply w c failed : NSW w -> In c (w_calls w) -> RS w (step_reply w c failed).
+Proof.
+  intros HNS Hc. apply RS_old. unfold step_reply. set (w0 := set_call w (c <| c_state := CDone |>)).
+  assert (H0 : forall k', In k' (w_calls w0) -> exists k, In k (w_calls w) /\ call_key k' = call_key k /\ c_resp k' = c_resp k)
+    by (apply old_set_call with (c := c); auto).
+  destruct (get_node w (c_src c)) as [n|] eqn:G; [|exact H0]. destruct (Votes.get_node_in _ _ _ G) as [Hn _].
+  destruct (n_frozen n); [exact H0|].
+  destruct (c_req c) as [q|q|q]; destruct (if failed then None else c_resp c) as [[p|p|p]|]; try exact H0.
+  destruct (ae_reply_ns (w_now w) n (c_round c) (c_dst c) (c_fgen c) q p (ns_nodes w HNS n Hn)) as [_ Hnone].
+  destruct (l_ae_reply (w_now w) n (c_round c) (c_dst c) (c_fgen c) q p) as [n1 o]. cbn [snd] in Hnone. subst o. exact H0.
+Qed.
+
+Lemma RS_new_call w1 w src dst rid g q : RS w w1 -> RS w (new_call w1 src dst rid g q).
+Proof.
+  intros H k' p Hk' Ep. unfold new_call in Hk'. cbn [w_calls set] in Hk'. apply in_app_or in Hk'.
+  destruct Hk' as [Hk'|[<-|[]]]; [apply H; assumption|]. cbn in Ep. discriminate.
+Qed.
+
+Theorem step_RS w l : static_label l = true -> nosnap_label l = true -> ALL C w -> RS w (step w l).
+Proof.
+  intros Hst Hns [HW HX HU HNS HTA HL]. pose proof (x_v C w HX) as HV.
+  assert (Hon : forall w1 id f, w_calls w1 = w_calls w -> RS w (on_node w1 id f)).
+  { intros w1 id f E. apply RS_same. unfold on_node. destruct (get_node w1 id); exact E. }
+  destruct l; cbn [step]; try discriminate Hst; try discriminate Hns; try (apply Hon; reflexivity).
+  - apply RS_same. reflexivity.
+  - destruct (get_call w c) as [cl|] eqn:G; [|apply RS_same; reflexivity]. destruct (VoteRecords.get_call_in _ _ _ G) as [Hin _].
+    destruct (c_state cl) eqn:Es; try (apply RS_same; reflexivity). apply RS_step_deliver; auto.
+  - destruct (get_call w c) as [cl|] eqn:G; [|apply RS_same; reflexivity]. destruct (VoteRecords.get_call_in _ _ _ G) as [Hin _].
+    apply RS_step_deliver; auto. discriminate.
+  - destruct (get_call w c) as [cl|] eqn:G; [|apply RS_same; reflexivity]. destruct (VoteRecords.get_call_in _ _ _ G) as [Hin _].
+    destruct (c_state cl); try (apply RS_same; reflexivity). apply RS_step_reply; auto.
+  - destruct (get_call w c) as [cl|] eqn:G; [|apply RS_same; reflexivity]. destruct (VoteRecords.get_call_in _ _ _ G) as [Hin _].
+    destruct (c_state cl); try (apply RS_same; reflexivity); apply RS_step_reply; auto.
+  - apply RS_old. intros k' Hk'. unfold drop_calls_of in Hk'. cbn [w_calls set] in Hk'. apply in_map_iff in Hk'.
+    destruct Hk' as (d & <- & Hd). exists d. rewrite calls_on_node in Hd. split; [exact Hd|]. destruct (c_src d =? n); split; reflexivity.
+  - destruct (get_node w n) as [m|] eqn:G; [|apply RS_same; reflexivity]. destruct (is_up m); [|apply RS_same; reflexivity].
+    unfold step_task. destruct (n_tasks m) as [|t rest]; [apply RS_same; reflexivity|]. destruct t as [rid peer pv|rid peer].
+    + destruct (l_rv_send _ rid peer pv); [apply RS_new_call|]; apply RS_same; reflexivity.
+    + destruct (l_ae_send _ peer) as [n1 [|q|q]]; [|apply RS_new_call|apply RS_new_call]; apply RS_same; reflexivity.
+  - destruct (get_node w n) as [m|] eqn:G; [|apply RS_same; reflexivity].
+    destruct (Votes.get_node_in _ _ _ G) as [Hm _]. rewrite (install_resume_ns m (ns_nodes w HNS m Hm)). apply RS_same. reflexivity.
+Qed.
+
 End StepCases.
